@@ -138,6 +138,23 @@ def other_recipes():
             continue
         add('ufunc_ops.' + name, {'form': 'op'}, lambda ctor=ctor: ctor(r3))
         add('ufunc_ops.' + name, {'form': 'func'}, lambda ctor=ctor: ctor(odl.RealNumbers()))
+    # integer-only ufunc operators and binary ufunc operators on integer spaces
+    i3 = odl.tensor_space(3, dtype='int64')
+    for name in ('bitwise_and', 'bitwise_or', 'bitwise_xor', 'invert', 'left_shift', 'right_shift'):
+        ctor = getattr(UO, name, None)
+        if ctor is not None:
+            add('ufunc_ops.' + name, {'form': 'op', 'dtype': 'int'}, lambda ctor=ctor: ctor(i3))
+    # expression classes built directly
+    P2 = odl.PowerOperator(r3, 2)
+    add('OperatorLeftVectorMult', {}, lambda: odl.OperatorLeftVectorMult(P2, r3.element([1, -2, 0.5])))
+    add('OperatorRightVectorMult', {}, lambda: odl.OperatorRightVectorMult(P2, r3.element([1, -2, 0.5])))
+    add('OperatorRightScalarMult', {}, lambda: odl.OperatorRightScalarMult(P2, 2.0))
+    add('OperatorLeftScalarMult', {}, lambda: odl.OperatorLeftScalarMult(P2, -2.0))
+    add('OperatorSum', {}, lambda: odl.OperatorSum(P2, odl.ScalingOperator(r3, 3.0)))
+    add('OperatorComp', {}, lambda: odl.OperatorComp(P2, odl.ScalingOperator(r3, 3.0)))
+    add('OperatorVectorSum', {}, lambda: odl.OperatorVectorSum(P2, r3.element([1, 2, 3])))
+    add('OperatorPointwiseProduct', {}, lambda: odl.OperatorPointwiseProduct(P2, odl.ScalingOperator(r3, 3.0)))
+    add('FunctionalLeftVectorMult', {}, lambda: odl.FunctionalLeftVectorMult(odl.solvers.L2NormSquared(r3), r3.element([1, 2, 3])))
     # solver building blocks and proximal factories
     S = odl.solvers
     add('proximal_const_func', {}, lambda: S.proximal_const_func(r3)(0.5))
@@ -242,7 +259,7 @@ def all_operator_classes():
 def classes_in(op, seen=None):
     """Class names of an operator and of the operators it wraps (one level of common attributes)."""
     seen = seen if seen is not None else set()
-    seen.add(type(op).__module__ + '.' + type(op).__name__)
+    seen.add(type(op))
     for attr in ('left', 'right', 'operator', 'functional'):
         sub = getattr(op, attr, None)
         if isinstance(sub, odl.Operator) and len(seen) < 40:
